@@ -307,6 +307,13 @@ fn cases(spec: &Spec, ty: &Value, obj_mode: bool) -> Vec<Case> {
                 raw_case("data-0", d(0), Verdict::Accept),
                 raw_case("data-1", d(1), Verdict::Accept),
                 raw_case("data-300", d(300), Verdict::Accept),
+                // the descriptions declare no limit: sizes around the 900-byte snapshot part, around
+                // the 1024-byte chunk and well beyond both
+                raw_case("data-900", d(900), Verdict::Accept),
+                raw_case("data-901", d(901), Verdict::Accept),
+                raw_case("data-1024", d(1024), Verdict::Accept),
+                raw_case("data-4096", d(4096), Verdict::Accept),
+                raw_case("data-8193", d(8193), Verdict::Accept),
                 raw_case("data-negative-length", neg, Verdict::Reject),
                 raw_case("data-length-beyond-end", long, Verdict::Reject),
             ]
